@@ -39,8 +39,19 @@ func init() {
 		steps := atoi(a[2])
 		outs := make([]int, steps)
 		t0 := time.Unix(1700000000, 0)
+		// optional a[5]: <callIndex>:<extraNs>,… — from that call on the timestamps are later by extraNs (a late tick,
+		// a suspended process); negative values model a clock stepping back
+		shift := map[int]time.Duration{}
+		if len(a) > 5 && a[5] != "-" {
+			for _, g := range strings.Split(a[5], ",") {
+				f := strings.SplitN(g, ":", 2)
+				shift[atoi(f[0])] = time.Duration(atoi64(f[1]))
+			}
+		}
+		var off time.Duration
 		for i := 0; i < steps; i++ {
-			outs[i] = fn(t0.Add(time.Duration(i) * iv))
+			off += shift[i]
+			outs[i] = fn(t0.Add(time.Duration(i)*iv + off))
 		}
 		return fmt.Sprintf("%d %d %s", int64(iv), rates.calls, intsTok(outs))
 	})
